@@ -139,7 +139,11 @@ func LoadModule(name, dir string, patterns []string, skip func(rel string) bool)
 	}
 	if name == "v2" || name == "root" {
 		ExplicitReturns(m)
+		nts := SimplifyTypeSwitches(m)
 		m.Folded = FoldNewHelpers(m)
+		if nts > 0 {
+			m.Folded = append(m.Folded, fmt.Sprintf("%d two-clause type switch(es) with a bound variable read as comma-ok assertions", nts))
+		}
 		DebugPrintFunc(m)
 	}
 	return m, nil
